@@ -61,6 +61,10 @@ def run(check, prog):
     indicators(check, prog)
     overlaps(check, prog)
     constructors(check, prog)
+    csg_motion(check, prog)
+    # the region of a centred scatterer moves by the vector: centre' = centre + v
+    from . import c19
+    c19.scatterer_translated(check, prog)
 
 
 # ----------------------------------------------------------------------
@@ -437,8 +441,9 @@ def overlaps(check, prog):
     ok = len(app) == 1
     dist_t = sum_t = None
     if ok:
-        conds = [t for t, pol in app[0]['cond'] if t[0] == 'cmp']
-        ok = len(conds) == 1 and conds[0][1] == '<'
+        conds = [t for t, pol in norm_cond(app[0]['cond']) if t[0] == 'cmp']
+        pols = [pol for t, pol in norm_cond(app[0]['cond']) if t[0] == 'cmp']
+        ok = len(conds) == 1 and conds[0][1] == '<' and pols == [True]
         if ok:
             lhs, rhs = conds[0][2], conds[0][3]
             dc = calls_in(lhs, cd)
@@ -534,14 +539,59 @@ def constructors(check, prog):
     rs = [o for o in res.raises if 'InvalidScatterer' in show(o.value)]
     ok = any(path_has(o.cond, lambda t: t[0] == 'call' and t[1] == 'isinstance' and
                       'Sphere' in show(t[2][1]), pol=False) for o in rs)
+    ok = ok and len(rs) == 1 and len(res.raises) == 1
+    sup = [c for c in it.calls if c['name'].endswith('Scatterers.__init__')]
+    ok = ok and len(sup) == 1
+    wst = [e for e in it.effects if e['kind'] == 'setattr' and e['attr'] == 'warn']
+    ok = ok and len(wst) == 1 and wst[0]['value'] == sym(fd.args.args[2].arg)
     check.require(ok, 'K5-rejections', 'Spheres.__init__ members',
-                  'a member that is not a Sphere raises InvalidScatterer', loc)
+                  'a member that is not a Sphere raises InvalidScatterer (nothing else '
+                  'does); the members are handed to Scatterers.__init__ and `warn` is '
+                  'stored', loc)
     q = SP + '.add'
     it = Interp(prog, max_depth=1)
     res = it.analyze(q)
-    ok = any('InvalidScatterer' in show(o.value) for o in res.raises)
+    fda = prog.func(q)
+    newm = sym(fda.args.args[1].arg)
+    isph = intern(('call', 'isinstance', (newm, ('classref', SC + 'sphere.Sphere')), ()))
+    ok = len(res.raises) == 1 and 'InvalidScatterer' in show(res.raises[0].value) and \
+        norm_cond(res.raises[0].cond) == [(isph, False)]
+    sup = [c for c in it.calls if c['name'].endswith('Scatterers.add')]
+    ok = ok and len(sup) == 1 and sup[0]['args'][-1] == newm
     check.require(ok, 'K5-rejections', 'Spheres.add',
-                  'adding a non-sphere raises InvalidScatterer', prog.loc(q, prog.func(q)))
+                  'adding a non-sphere raises InvalidScatterer (and only then); a '
+                  'sphere is handed on to Scatterers.add', prog.loc(q, fda),
+                  fail_detail='raises under %s' % [
+                      [(show(t)[:60], p) for t, p in o.cond] for o in res.raises])
+    # RigidCluster.__init__
+    RC = SC + 'spherecluster.RigidCluster'
+    q = RC + '.__init__'
+    fdr = prog.func(q)
+    it = Interp(prog, max_depth=1, opaque=['holopy.core.utils.ensure_array'])
+    res = it.analyze(q, selfcls=RC)
+    sp_, tr_, ro_ = [sym(a.arg) for a in fdr.args.args[1:4]]
+    issp = intern(('call', 'isinstance', (sp_, ('classref', SC + 'spherecluster.Spheres')),
+                   ()))
+    inv = [o for o in res.raises if 'InvalidScatterer' in show(o.value)]
+    val = [o for o in res.raises if 'ValueError' in show(o.value)]
+    ok = len(inv) == 1 and norm_cond(inv[0].cond) == [(issp, False)] and len(val) == 1
+    if ok:
+        cs = [(t, p) for t, p in norm_cond(val[0].cond) if t != issp]
+        ok = len(cs) == 1 and cs[0][1] is False and cs[0][0][0] == 'bool' and \
+            cs[0][0][1] == 'and' and len(cs[0][0][2]) == 2 and all(
+                x[0] == 'cmp' and x[1] == '==' and x[3] == num(3) and
+                x[2][0] == 'call' and x[2][1] == 'len' for x in cs[0][0][2]) and \
+            {y for x in cs[0][0][2] for y in subterms(x) if y in (tr_, ro_)} == {tr_, ro_}
+    st = {e['attr']: e['value'] for e in it.effects if e['kind'] == 'setattr'}
+    ok = ok and st.get('spheres') == sp_ and st.get('translation') == tr_ and \
+        st.get('rotation') == ro_
+    check.require(ok, 'K5-rejections', 'RigidCluster.__init__',
+                  'anything but a Spheres raises InvalidScatterer; a translation or '
+                  'rotation that is not of length 3 raises ValueError; otherwise the '
+                  'three arguments are stored under their own names',
+                  prog.loc(q, fdr), fail_detail='raises under %s; stores %s' % (
+                      [[(show(t)[:50], p) for t, p in o.cond] for o in res.raises],
+                      {k: show(v)[:30] for k, v in st.items()}))
     q = SC + 'sphere.Sphere.__init__'
     it = Interp(prog, max_depth=1, opaque=[SC + 'scatterer.CenteredScatterer.__init__'])
     res = it.analyze(q)
@@ -565,3 +615,74 @@ def constructors(check, prog):
     check.require(ok, 'K5-rejections', 'CenteredScatterer.__init__ center',
                   'a centre that is a scalar or not of length 3 raises InvalidScatterer',
                   prog.loc(q, prog.func(q)))
+
+
+def csg_motion(check, prog):
+    """A set operation is not symmetric in its operands (Difference): moving a
+    CSG scatterer must rebuild it with the operands in their original slots,
+    each moved by the same vector / rotation."""
+    CQ = SC + 'csg.CsgScatterer'
+    q = CQ + '.translated'
+    fd = prog.func(q)
+    me = sym(fd.args.args[0].arg)
+    cs_ = tuple(sym(a.arg) for a in fd.args.args[1:4])
+    it = Interp(prog, max_depth=1, opaque=[SC + 'scatterer.Scatterer.translated',
+                                           'holopy.core.math.rotate_points'])
+    v = it.analyze(q).ret
+    want = intern(('call', ('attr', me, '__class__'), tuple(
+        ('call', ('attr', ('attr', me, op), 'translated'), cs_, ())
+        for op in ('s1', 's2')), ()))
+    check.require(v == want, 'K1-csg-operands-keep-their-slots', 'CsgScatterer.translated',
+                  'self.__class__(s1.translated(v), s2.translated(v)) with the same '
+                  'three coordinates, in order', prog.loc(q, fd),
+                  fail_detail='returns %s' % show(v)[:200])
+    q = CQ + '.rotated'
+    fd = prog.func(q)
+    me = sym(fd.args.args[0].arg)
+    ang = tuple(sym(a.arg) for a in fd.args.args[1:4])
+    it = Interp(prog, max_depth=1, opaque=[SC + 'scatterer.Scatterer.translated',
+                                           'holopy.core.math.rotate_points'])
+    v = it.analyze(q).ret
+    ok = v[0] == 'call' and v[1] == ('attr', me, '__class__') and len(v[2]) == 2
+    detail = 'returns %s' % show(v)[:200]
+    for i, op in enumerate(('s1', 's2')):
+        if not ok:
+            break
+        t = v[2][i]
+        ok = t[0] == 'call' and isinstance(t[1], tuple) and t[1][2] == 'rotated' and \
+            tuple(t[2]) == ang
+        if ok:
+            tr = t[1][1]
+            ok = tr[0] == 'call' and tr[1] == ('attr', ('attr', me, op), 'translated') \
+                and len(tr[2]) == 1 and tr[2][0][0] == 'star'
+            if ok:
+                df = as_difference(tr[2][0][1])
+                ok = df is not None and df[1] == ('attr', ('attr', me, op), 'center') \
+                    and df[0][0] == 'idx' and df[0][2] == num(i) and \
+                    bool(calls_in(df[0], 'holopy.core.math.rotate_points'))
+            detail = 'operand %s becomes %s' % (op, show(t)[:160])
+    check.require(ok, 'K1-csg-operands-keep-their-slots', 'CsgScatterer.rotated',
+                  'operand i is moved by (its rotated centre i - its own centre) and '
+                  'rotated by the same angles, and stays in slot i', prog.loc(q, fd),
+                  fail_detail=detail)
+    # index_at: outside the scatterer the index is the background
+    q = SC + 'scatterer.Scatterer.index_at'
+    fd = prog.func(q)
+    it = Interp(prog, max_depth=1, opaque=[SC + 'scatterer.Scatterer.in_domain',
+                                           'holopy.core.utils.ensure_array'])
+    v = it.analyze(q).ret
+    me = sym(fd.args.args[0].arg)
+    pts, bg = sym(fd.args.args[1].arg), sym(fd.args.args[2].arg)
+    ok = v[0] == 'loop'
+    if ok:
+        init = v[3]
+        dom = intern(('call', ('attr', me, 'in_domain'), (pts,), ()))
+        ones = [x for x in subterms(init) if x[0] == 'call' and x[1] == 'numpy.ones_like'
+                and x[2] and x[2][0] == dom]
+        ok = len(ones) == 1 and Canon().equal(init, intern(('bin', '*', ones[0], bg)))
+        ok = ok and v[5] == ('call', 'enumerate', (
+            ('call', 'holopy.core.utils.ensure_array', (('attr', me, 'n'),), ()),), ())
+    check.require(ok, 'K3-domain-numbering', 'Scatterer.index_at background',
+                  'points outside every domain get the background index; the domains '
+                  'are numbered along ensure_array(self.n)', prog.loc(q, fd),
+                  fail_detail='returns %s' % show(v)[:200])
